@@ -22,6 +22,18 @@ PROPS_ADD = {
         "technique": "TODO", "rule": "TODO", "level_text": "TODO", "note": "TODO",
         "design_ref": "7/C13", "assumptions": E3_ASSUME,
     },
+    "C15": {
+        "engine": "logsim", "level": "fault_enumeration", "budget": {"quick": 20, "thorough": 600},
+        "title": "Manifest reload equals in-memory state across rewrites and crashes",
+        "technique": "TODO", "rule": "TODO", "level_text": "TODO", "note": "TODO",
+        "design_ref": "7/C15", "assumptions": E3_ASSUME,
+    },
+    "C21": {
+        "engine": "logsim", "level": "exploration", "budget": {"quick": 20, "thorough": 600},
+        "title": "Persisted raft state and log survive a process crash",
+        "technique": "TODO", "rule": "TODO", "level_text": "TODO", "note": "TODO",
+        "design_ref": "7/C21", "assumptions": E3_ASSUME,
+    },
     "C35": {
         "engine": "logsim", "level": "exploration", "budget": {"quick": 20, "thorough": 600},
         "title": "SST tables serve exactly the entries they were built from",
